@@ -185,3 +185,16 @@ Example C11_nonvacuous_dirichlet :  (* cubic interpolation next to the left boun
   check_dir_row 3 4 0 [Dy 15 (-4); Dy (-5) (-4); Dy 1 (-4)] d0 = true.
 Proof. vm_compute. reflexivity. Qed.
 Print Assumptions C11_nonvacuous_dirichlet.
+
+(* the supports and the mirrored selection on concrete instances (the hypotheses of (5) and (6) are satisfiable):
+   periodic 16 <- 8, order 4, last fine point: columns 6,7 and the wrapped columns 0,1 at offsets -3,-1,1,3;
+   non-periodic 15 <- 7, order 4, first fine point: window 0..3 of the padded grid (0 = boundary value) *)
+Example C11_support_instances :
+  per_support 8 4 15 = [(6, -3); (7, -1); (0, 1); (1, 3)]%Z /\
+  dir_support 7 4 0 = [(0, -1); (1, 1); (2, 3); (3, 5)]%Z /\
+  model_row_per_nested 16 [0;1;2;3;4;5;6;7;8;9;10;11;12;13;14;15]%Z [0;2;4;6;8;10;12;14]%Z 4 15
+    = [(0, 1); (1, 3); (6, -3); (7, -1)]%Z /\
+  next_neighbors 5 [0; 2; 4; 6; 8; 10]%Z 2 = [2; 3]%Z /\
+  next_neighbors_periodic 16 15 [0; 2; 4; 6; 8; 10; 12; 14]%Z 4 = [0; 1; 6; 7]%Z.
+Proof. vm_compute. repeat split; reflexivity. Qed.
+Print Assumptions C11_support_instances.
